@@ -51,6 +51,7 @@ type n3 struct {
 	Fin        []*n3  // try: finally exprs (nil: no finally clause)
 	HasC       bool
 	HasF       bool
+	ViaSwap    bool   // throw: raised inside the update function of a swap! on a local atom, after the function has reset that atom
 	ViaMacro   bool   // rendered through a macro: the try form the evaluator sees was not built by the reader
 	CatchSym   string // "e" or "_"
 	Name       string // sym/tsym: which symbol is read ("e" or "_")
@@ -61,9 +62,48 @@ var c03Consts = [][2]string{
 	{"'(+ 1 2)", "(+ 1 2)"}, {"(list '+ 1 2)", "(+ 1 2)"}, {"'(trace! :evaluated-twice)", "(trace! :evaluated-twice)"},
 	{"[1 2]", "[1 2]"}, {"{:a 1}", "{:a 1}"}, {"'(throw 99)", "(throw 99)"}, {"'e", "e"}, {"'(do (trace! :again) 5)", "(do (trace! :again) 5)"},
 	{"0", "0"}, {"false", "false"}, {"()", "()"}, {"'(sym2)", "(sym2)"},
+	// collections that contain code-looking items: they are data too
+	{"['sym1 2]", "[sym1 2]"}, {"{:k '(trace! :evaluated-twice)}", "{:k (trace! :evaluated-twice)}"}, {"[(list 'trace! :vec-evaluated) 1]", "[(trace! :vec-evaluated) 1]"},
+	{"{:s 'sym2}", "{:s sym2}"}, {"(with-meta ['e '(throw 98)] {:m 1})", "[e (throw 98)]"}, {"(list [1 'sym1] {:a '(sym2)})", "([1 sym1] {:a (sym2)})"},
 }
 
-var c03Wraps = []string{"fn1", "fn2", "fn3", "m-id", "cond", "or", "and", "thread", "call1", "apply", "let-other"}
+var c03Wraps = []string{"fn1", "fn2", "fn3", "m-id", "cond", "or", "and", "thread", "call1", "apply", "let-other", "visit", "visit"}
+
+// visitErr is what the harness builtin (visit f) returns when the lisp function it called back failed: a Go
+// error of its own that wraps the callback's error.
+type visitErr struct{ inner error }
+
+func (v *visitErr) Error() string { return "visit: " + v.inner.Error() }
+func (v *visitErr) Unwrap() error { return v.inner }
+
+// c03InstallExtras registers (visit f): calls f without arguments through types.Apply.
+func c03InstallExtras(e types.EnvType) {
+	e.Set(types.Symbol{Val: "visit"}, types.Func{Fn: func(ctx context.Context, a []types.MalType) (types.MalType, error) {
+		r, err := types.Apply(ctx, a[0], nil)
+		if err != nil {
+			return nil, &visitErr{inner: err}
+		}
+		return r, nil
+	}})
+}
+
+// hasRawProbe: a panic of a raw builtin passes through (visit f) without being wrapped.
+func hasRawProbe(n *n3) bool {
+	if n == nil {
+		return false
+	}
+	if n.Kind == "probe" && n.Raw {
+		return true
+	}
+	for _, l := range [][]*n3{n.Kids, n.Catch, n.Fin} {
+		for _, k := range l {
+			if hasRawProbe(k) {
+				return true
+			}
+		}
+	}
+	return false
+}
 
 type c03Gen struct {
 	handlerDepth int
@@ -154,7 +194,7 @@ func (g *c03Gen) expr(depth int, inFin bool, inBody bool) *n3 {
 		} else {
 			x = g.constNode()
 		}
-		return &n3{Kind: "throw", Kids: []*n3{x}}
+		return &n3{Kind: "throw", Kids: []*n3{x}, ViaSwap: g.tp.Chance(LaneWork, 1, 6)}
 	case 5:
 		n := &n3{Kind: "do"}
 		for i := 0; i < 2+g.tp.Draw(LaneWork, 2); i++ {
@@ -164,7 +204,11 @@ func (g *c03Gen) expr(depth int, inFin bool, inBody bool) *n3 {
 	case 6:
 		return g.try(depth+1, inBody)
 	case 7:
-		return &n3{Kind: "wrap", Wrap: c03Wraps[g.tp.Draw(LaneWork, len(c03Wraps))], Kids: []*n3{g.expr(depth+1, false, inBody)}}
+		n := &n3{Kind: "wrap", Wrap: c03Wraps[g.tp.Draw(LaneWork, len(c03Wraps))], Kids: []*n3{g.expr(depth+1, false, inBody)}}
+		if n.Wrap == "visit" && hasRawProbe(n.Kids[0]) {
+			n.Wrap = "call1"
+		}
+		return n
 	}
 	return &n3{Kind: "let", Kids: []*n3{g.constNode(), g.expr(depth+1, false, inBody)}}
 }
@@ -243,6 +287,9 @@ func (n *n3) render() string {
 	case "mthrow":
 		return "(m-throw " + n.Src + ")"
 	case "throw":
+		if n.ViaSwap {
+			return "(let [a9 (atom 0)] (swap! a9 (fn [v] (do (reset! a9 (+ v 1)) (throw " + n.Kids[0].render() + ")))))"
+		}
 		return "(throw " + n.Kids[0].render() + ")"
 	case "do":
 		return "(do " + renderAll(n.Kids) + ")"
@@ -273,6 +320,8 @@ func (n *n3) render() string {
 			return "(apply (fn [] " + x + ") ())"
 		case "let-other":
 			return "(let [other 1] " + x + ")"
+		case "visit":
+			return "(visit (fn [] " + x + "))"
 		}
 	case "try":
 		cs := n.CatchSym
@@ -461,7 +510,12 @@ func (m *m3) eval(n *n3) (string, bool, string) {
 	case "do":
 		return m.seq(n.Kids)
 	case "wrap":
-		return m.eval(n.Kids[0])
+		v, th, o := m.eval(n.Kids[0])
+		if th && n.Wrap == "visit" {
+			// the Go builtin hands on an error of its own that wraps the callback's
+			return "", true, "#visit<" + o + ">"
+		}
+		return v, th, o
 	case "let":
 		v, th, o := m.eval(n.Kids[0])
 		if th {
@@ -522,6 +576,10 @@ func canon03(v types.MalType) string {
 var sentinelMsgRE = regexp.MustCompile(`"sentinel-(\d+)"`)
 
 func err03(err error) string {
+	var ve *visitErr
+	if errors.As(err, &ve) {
+		return "#visit<" + thrown03(ve.inner) + ">"
+	}
 	if errors.Is(err, errBudget) {
 		return "#budget-timeout"
 	}
@@ -577,6 +635,7 @@ func (c03) Run(tp *Tape, opt RunOpt) *RunOut {
 		return rt.probe(ctx, a[0].(int), true)
 	}})
 	call.CallOverrideFN(e, "probe-e!", func(ctx context.Context, i int) error { _, err := rt.probe(ctx, i, false); return err })
+	c03InstallExtras(e)
 	if _, err := lisp.EVAL(context.Background(), mustRead(c03Setup), e); err != nil {
 		panic("c03 setup: " + err.Error())
 	}
